@@ -119,7 +119,7 @@ def gen_strings(tier):
                     yield from emit(fill(sh, iter(ops), iter(lv)))
     # function wrappers around <= 2-leaf subtrees
     wl = ["2d0", "Tgas", "-2", "n(idx_H)"]
-    for fn in ("exp", "sqrt", "log", "dexp"):
+    for fn in ("exp", "sqrt", "log", "dexp", "log10", "dlog", "dsqrt", "dlog10", "abs"):
         for a in wl:
             yield from emit(("fn", fn, a))
             for op in OPS:
@@ -316,6 +316,10 @@ def run_chunk(exprs):
                 try:
                     got = c_value(ctext, val)
                 except KeyError as e:
+                    if "unknown function" in str(e):
+                        # a Fortran-only intrinsic passed through verbatim: the C compiler refuses the unit (loud), not judged
+                        bad = "c-refuses-function"
+                        break
                     m = re.search(r"IDX_\w+", ctext)
                     nm = str(e).strip("'")
                     idxs = re.findall(r"idx_\w+", expr)
